@@ -234,6 +234,12 @@ func c01MonitorBody(rc *RunCtx) {
 	rc.Cfg("cache_off", opts.DisableCache)
 	rc.Cfg("plain_disk", opts.Plain)
 	rc.Cfg("shares", fmt.Sprintf("%d/%d", opts.Thresh, opts.Shares))
+	// a third of the runs use an auto-unseal style seal: recovery config / recovery
+	// key and the KMS-wrapped stored keys are the direct (bootstrap) writes then
+	if tp.Pick(3) == 2 {
+		opts.AutoSealSecret = []byte(fmt.Sprintf("monitor-kms-%d", tp.Pick(1000)))
+		rc.Cfg("seal", "auto")
+	}
 	var err error
 	// BootCore sets h only at the end; the monitor needs the core during init
 	h, err = BootCoreWith(disk, opts, func(x *CoreH) { h = x })
